@@ -22,7 +22,8 @@ PROVED here (all histories from an empty pool with any tick spacing > 0, admissi
  3a. claims over histories: `incentive_claim_split` (claimable = Σ accumulators, collected iff the age has met the uptime, else
    forfeited), `join_time_fixed`, `unmet_uptime_never_collected_history` (the split by age against the join time set at creation,
    along ANY history), `same_block_claim_collects_nothing`, `twins_equal_incentives`, `twins_created_together_incentives`,
-   `twins_created_together_earn_equal`, `create_gives_fresh_uptime_records`, `never_in_range_earns_no_incentives`.
+   `twins_created_together_earn_equal`, `create_gives_fresh_uptime_records`, `never_in_range_earns_no_incentives`,
+   `second_incentive_claim_pays_nothing`.
  3b. the SUM bound: `incentive_sum_invariant` (Σ exact entitlements + Σ records' remaining × factor ≤ balance × 10¹⁸ × factor + 3·10¹⁸ per
    message), `total_claimable_incentives_le_balance`, `incentive_solvency` (Σ claimable ≤ incentive address balance for histories
    with 3·(#messages + #positions) < factor ≥ 10¹⁸): the clause of C01 for incentives.
@@ -32,8 +33,8 @@ PROVED here (all histories from an empty pool with any tick spacing > 0, admissi
    successful syncing messages with ≥ 1 unit of liquidity after the record's start), `idle_time_emits_nothing`,
    `slot_zero_or_full_partial` (the converse up to the three silent Dec-overflow skips of the code).
 NOT PROVED: the dust bound in the other direction (how much of the balance can stay unclaimable: forfeits of `collectIncentives` stay in
-the address by design); second incentive claim = 0 (follows the same way as for spread rewards, not stated); the link between the
-ghost "total paid out" and the balance is by construction of `bal` (compared with the bank balance by the engine after every op).
+the address by design); the link between a ghost "total paid out" and the balance is by construction of `bal` (compared with the bank
+balance by the engine after every op); the converse of the slot characterisation beyond `slot_zero_or_full_partial`.
 -/
 import OsmoVerif.Proofs.CLIncHist25
 import OsmoVerif.Props.C08Inc
@@ -402,6 +403,49 @@ example :
       (149887593668, 149887593668 + 79928072721 + 24981265611) := by
   decide +kernel
 
+/-- **a second incentive claim pays nothing**: right after `collectIncentives` (same block) the position can claim nothing —
+neither collected nor forfeited: the claim re-based all six records to the growth inside now. -/
+theorem second_incentive_claim_pays_nothing {s s' : Full} (hi : IncInv s) {sender : String} {id : Nat} {c f : Coins}
+    (h : collectIncentives s sender id = some (s', c, f)) {c2 f2 : Coins}
+    (h2 : claimableIncentives s' id = some (c2, f2)) : c2 = [] ∧ f2 = [] := by
+  have hap : applyI s (.icollect sender id) = some s' := by simp only [applyI, h, Option.map_some]
+  have hi' := (applyI_facts hi hap).inv
+  unfold collectIncentives at h
+  simp only [Option.bind_eq_some_iff] at h
+  obtain ⟨pos, hfind, h⟩ := h
+  split at h
+  · cases h
+  · simp only [Option.bind_eq_some_iff, Option.map_eq_some_iff, Prod.mk.injEq] at h
+    obtain ⟨i1, hsync, ⟨i2, coll, forf, byUp⟩, hclaim, b, _, e, _, _⟩ := h
+    subst e
+    obtain ⟨hmem, hid⟩ := find_id hfind
+    obtain ⟨hp1, _⟩ := sync_part hi.inc hsync
+    rw [← hid] at hclaim
+    obtain ⟨e2c, T, _, _, _, hpart, chain⟩ := claimI_stage hi.fees hp1 hmem hclaim
+    have hln : ({ i2 with bal := b } : Inc).last = ({ i2 with bal := b } : Inc).now := by
+      show i2.last = i2.now
+      have e2l : i2.last = i1.last := by rw [e2c]
+      have e2n : i2.now = i1.now := by rw [e2c]
+      rw [e2l, e2n]; exact sync_last_now hsync
+    unfold claimableIncentives at h2
+    simp only [Option.bind_eq_some_iff, Option.map_eq_some_iff, Prod.mk.injEq] at h2
+    obtain ⟨pos', hfind', i1', hsync', ⟨i2', x, y, z⟩, hclaim', e1, e2⟩ := h2
+    simp only at e1 e2 hsync' hclaim' hfind'
+    subst e1; subst e2
+    rw [hfind] at hfind'; injection hfind' with hfind'; subst hfind'
+    rw [sync_idem hln] at hsync'
+    injection hsync' with hsync'
+    subst hsync'
+    rw [← hid] at hclaim'
+    refine claim_nothing hi.fees (hpart b) hmem (fun k hk => ?_) hclaim'
+    obtain ⟨⟨a1, a2, r, _, ins, _, _, _, ha1, ha2, _, _, _, _, _, _, _, hrec, _, hamt, _, ev, _⟩⟩ := chain k hk
+    have hacc2 : accAt ({ i2 with bal := b } : Inc) k = a2 := by unfold accAt; show (i2.accs[k]?).getD {} = a2; rw [ha2]; rfl
+    refine ⟨_, by rw [hacc2]; exact hrec, fun d => ⟨rfl, ?_⟩⟩
+    show amt ins d = _
+    rw [hamt d]
+    exact (insU_congr (i := i1) (i' := { i2 with bal := b }) d
+      (by show valAt i2.accs k = _; rw [valAt_of ha2, valAt_of ha1, ev]) (by show i2.trackers = _; rw [e2c])).symm
+
 /-! non-vacuity for section 3a: twins (bob, bert: same block, same range, same amounts), a position whose range is never
 entered (carol), an incentive collect by alice in between, a swap moving the tick inside the common bucket -/
 
@@ -437,6 +481,13 @@ example :
     (demoTw.fees.pool.positions.map fun q => (q.id, q.lower, q.upper)) = [(1, -1000, 1000), (2, 0, 2000), (3, 0, 2000)] ∧
     claimableIncentives (runI demoTw demoTwOps) 2 = some ([("inc0", 15841), ("inc1", 158)], []) ∧
     claimableIncentives (runI demoTw demoTwOps) 3 = some ([("inc0", 15841), ("inc1", 158)], []) := by
+  decide +kernel
+
+/-- alice collects at 120 s in `demoTwOps`; asked again in the same block she gets nothing (`second_incentive_claim_pays_nothing`). -/
+example :
+    ((collectIncentives (runI demoTw (demoTwOps.take 3)) "alice" 1).map fun x => (x.2.1, x.2.2)) =
+      some ([("inc0", 89985), ("inc1", 899)], []) ∧
+    ((collectIncentives (runI demoTw (demoTwOps.take 3)) "alice" 1).bind fun x => claimableIncentives x.1 1) = some ([], []) := by
   decide +kernel
 
 /-- bob and bert of the demo ARE created one after the other with the same resulting liquidity and range (hypotheses of
